@@ -138,6 +138,7 @@ type c08Run struct {
 	closed  map[int]bool // entries on which somebody has run close (1)
 	mu      sync.Mutex   // loader bookkeeping
 	pending []string     // events of the current operation
+	before  [][2]uint64  // LRU content when the current operation began
 	script  c08Script
 	failed  string
 
@@ -210,7 +211,7 @@ func (r *c08Run) flush() {
 		if i == len(r.pending)-1 {
 			o = r.snapshot()
 		}
-		r.script.Steps = append(r.script.Steps, "("+e+", "+o+")")
+		r.script.Steps = append(r.script.Steps, "q ("+e+") "+o)
 	}
 	r.pending = r.pending[:0]
 	// L3: a holder never sees a closed accessor; Close() at most once and never with references out
@@ -247,7 +248,9 @@ func (r *c08Run) settle() {
 			if s.state != 2 || r.ents[s.ent].refs.Load() != 0 {
 				continue
 			}
-			before := r.pairs()
+			// what lru.Remove evicts is decided by the LRU content BEFORE the operation that released the last reference:
+			// the remover runs on as soon as that reference is gone, possibly before this line
+			before := r.before
 			select {
 			case err := <-s.done:
 				if err != nil {
@@ -455,6 +458,7 @@ func c08RunScript(t *testing.T, zr *zv.Run, seed uint64, cap, n, nops int, heigh
 	rng := zv.NewRand(seed)
 	step := func(name string, f func()) {
 		r.script.Ops = append(r.script.Ops, name)
+		r.before = r.pairs()
 		f()
 		if r.failed == "" {
 			r.settle()
